@@ -310,3 +310,115 @@ def char_switch_arms(body):
         if t[4] == "char" and len(t[2]) > len(best):
             best = {int(v): tgt for v, tgt in t[2]}
     return best
+
+
+# ---------------------------------------------------------------- K3g: guard context over a finite mode domain
+
+MODES = ("Enabled", "Disabled", "IntrospectionOnly")
+
+
+def _mode_level(body, place):
+    """'schema' or 'request' for a place ending in .introspection_mode"""
+    if any(isinstance(x, str) and x == ".registry" for x in place):
+        return "schema"
+    o, passed = trace(body, place[0])
+    txt = str(o)
+    if ".registry" in txt or "schema_env" in txt and "query_env" not in txt:
+        return "schema"
+    for c in passed:
+        pass
+    # self.0.env.registry...  vs env (QueryEnv) / ctx.query_env
+    if any(k == "field" and (".registry" in x) for k, x in o if k == "field"):
+        return "schema"
+    return "request"
+
+
+def mode_reachable(body, sinks, adt_pat=r"schema::IntrospectionMode$", max_states=20000):
+    """{sink_bb: set of (schema_mode, request_mode)} under which each sink block is reachable, by path-sensitive
+    exploration that (a) decides switches on an IntrospectionMode discriminant / `==` test from the assumed pair and
+    (b) tracks boolean temporaries assigned constants (matches! lowering)."""
+    rx = re.compile(adt_pat)
+    sinks = set(sinks)
+    result = {s: set() for s in sinks}
+    # pre-compute eq-call results: dest local -> (level, variant)
+    eqs = {}
+    for c in body.calls():
+        if c.callee and c.callee.endswith("::eq") and len(c.args) == 2 and any("IntrospectionMode" in t for t in c.argtys):
+            lv = var = None
+            for a in c.args:
+                k = None
+                from factlib import resolve_const
+                k = resolve_const(body, a)
+                if k and k.get("variant"):
+                    var = k["variant"]
+                else:
+                    o, _ = trace(body, a)
+                    places = [x for kk, x in o if kk == "field" and ".introspection_mode" in x]
+                    if places:
+                        lv = _mode_level(body, places[0])
+            if lv and var:
+                eqs[c.dest[0]] = (lv, var, c.bb)
+    for sm in MODES:
+        for rm in MODES:
+            assume = {"schema": sm, "request": rm}
+            seen = set()
+            work = [(0, ())]
+            while work and len(seen) < max_states:
+                bb, env = work.pop()
+                if (bb, env) in seen:
+                    continue
+                seen.add((bb, env))
+                if bb in sinks:
+                    result[bb].add((sm, rm))
+                envd = dict(env)
+                # statements: constant bool assignments / copies
+                for s in body.stmts(bb):
+                    if len(s[0]) == 1:
+                        r = s[1]
+                        l = s[0][0]
+                        if r[0] == "use" and r[1][0] == "k":
+                            v = body.kint(r[1])
+                            k = body.kconst(r[1])
+                            if k and k.get("ty") == "bool" and v is not None:
+                                envd[l] = v
+                            else:
+                                envd.pop(l, None)
+                        elif r[0] == "use" and r[1][0] in ("c", "m") and len(r[1][1]) == 1 and r[1][1][0] in envd:
+                            envd[l] = envd[r[1][1][0]]
+                        elif r[0] == "un" and r[1] == "Not" and r[2][0] in ("c", "m") and len(r[2][1]) == 1 and r[2][1][0] in envd:
+                            envd[l] = 1 - envd[r[2][1][0]]
+                        else:
+                            envd.pop(l, None)
+                t = body.term(bb)
+                nxt = None
+                if t[0] == "call":
+                    d = t[3][0]
+                    if d in eqs and eqs[d][2] == bb:
+                        lv, var, _ = eqs[d]
+                        envd[d] = 1 if assume[lv] == var else 0
+                    else:
+                        envd.pop(d, None)
+                if t[0] == "switch":
+                    op = t[1]
+                    taken = None
+                    d = body.disc_of_switch(bb)
+                    if d and rx.search(d[1]) and ".introspection_mode" in d[0]:
+                        lv = _mode_level(body, d[0])
+                        want = assume[lv]
+                        taken = t[3]
+                        for v, tgt in t[2]:
+                            if d[2].get(v) == want:
+                                taken = tgt
+                    elif op[0] in ("c", "m") and len(op[1]) == 1 and op[1][0] in envd:
+                        val = envd[op[1][0]]
+                        taken = t[3]
+                        for v, tgt in t[2]:
+                            if int(v) == val:
+                                taken = tgt
+                    nxt = [taken] if taken is not None else None
+                if nxt is None:
+                    nxt = body.succ(bb)
+                fenv = tuple(sorted(envd.items()))
+                for n in nxt:
+                    work.append((n, fenv))
+    return result
